@@ -10,7 +10,7 @@
  *   the canonical dump (hwv_dump.h), or the single line "SAME" when it is byte-identical to the previous dump
  *   check ok | check abort <failed assertion>     (hwloc_topology_check() in a forked child)
  *
- * Object references  #k  = k-th object (mod the number of objects) of the DFS pre-order of the current tree
+ * Object references  #t<type>.<k> = k-th object of that type (mod their number);  #k  = k-th object (mod the number of objects) of the DFS pre-order of the current tree
  * (normal, memory, io, misc children: the order of the dump ids).
  * Set expressions: terms combined left to right with + (or), & (and), \ (andnot); a leading ~ complements the result.
  *   term = <inf>:<hex> | cs#k | ccs#k | ns#k | cns#k | b<i> | acpu | anode | empty | full      ("-" alone = NULL pointer)
@@ -64,6 +64,15 @@ static int obj_id(hwloc_obj_t o) { unsigned i; for (i = 0; i < objn; i++) if (ob
 /* "#k" -> object; NULL on syntax error */
 static hwloc_obj_t obj_ref(const char *s)
 {
+  if (s && s[0] == '#' && s[1] == 't' && isdigit((unsigned char)s[2])) {
+    /* #t<type>.<k> : k-th object (mod their number) of that type in DFS order; NULL when there is none */
+    char *end; unsigned long ty = strtoul(s + 2, &end, 10), k = *end == '.' ? strtoul(end + 1, NULL, 10) : 0; unsigned i, n = 0;
+    for (i = 0; i < objn; i++) if ((unsigned long)objv[i]->type == ty) n++;
+    if (!n) return NULL;
+    k %= n;
+    for (i = 0; i < objn; i++) if ((unsigned long)objv[i]->type == ty && !k--) return objv[i];
+    return NULL;
+  }
   if (!s || s[0] != '#' || !isdigit((unsigned char)s[1])) return NULL;
   return objv[strtoul(s + 1, NULL, 10) % objn];
 }
